@@ -485,7 +485,10 @@ def run(tier, seed):
                 amp.append((name, e, M, tmpl % (1 << e)))
     alines = ["a%d %s cpu=%d mem=%d stats=1" % (k, hexs(src), 20000000, M) for k, (_, _, M, src) in enumerate(amp)]
     t0 = time.time()
-    res = vlib.run_lines_resilient(gvh, ["lua"], alines, per_case_timeout=20, mem_kb=5 * 1024 * 1024)
+    # a fresh child every 20 cases: HeapSys growth during a case depends on the collector's target, i.e. on what the
+    # PROCESS still holds from earlier cases (abandoned coroutines keep their goroutines), so a garbage-heavy case late
+    # in a long-lived process could grow the heap by hundreds of MB without keeping a byte alive
+    res = vlib.run_lines_resilient(gvh, ["lua"], alines, per_case_timeout=20, mem_kb=5 * 1024 * 1024, restart_every=20)
     worst = (0.0, None)
     for (name, e, M, src), l in zip(amp, res):
         o = parse(l)
